@@ -26,6 +26,7 @@ FIXMAP = [  # (regex on fingerprint, distinctive words of the fix commit subject
     (r"GetAudience", "GetAudience does not modify"),
     (r"provider:token-exchange:grant-unregistered", "token exchange on the Provider router requires"),
     (r"legacy:device_authorization:grant-unregistered", "LegacyServer.DeviceAuthorization requires"),
+    (r"leaks-into-query:response-type-spelled-as-registered", "default response mode is fragment"),
 ]
 log = subprocess.run(["git", "-C", "/repo", "log", "--format=%h %s"], stdout=subprocess.PIPE, text=True).stdout.splitlines()
 def commit_for(words):
